@@ -111,23 +111,48 @@ func (P *Prog) buildQuery(o *Obligation) (asserts []*Term, stats string) {
 		base = []*Term{o.Hyp, Not(o.Goal)}
 	}
 	asserts = append(asserts, base...)
-	if len(o.Lazy) > 0 {
-		done := map[string]bool{}
-		total := 0
-		lazies := append([]*LazyForall{}, o.Lazy...)
-		lazySink = &lazies
-		defer func() { lazySink = nil }()
-		for round := 0; round < 3; round++ {
-			order := collect(asserts)
-			var added []*Term
+	// Three saturation steps are interleaved for a few rounds, because each can introduce
+	// terms the others act on: (1) ground instances of the quantified facts at the index
+	// terms of the query, (2) the defining equations of specification functions for every
+	// application, (3) extensionality of the summing functions between different rows.
+	done := map[string]bool{}
+	doneApp := map[int]bool{}
+	donePair := map[string]bool{}
+	total := 0
+	lazies := append([]*LazyForall{}, o.Lazy...)
+	// index terms of the goal itself are always used as instantiation points
+	goalTerms := map[int]bool{}
+	for _, srt := range []*Sort{IntSort, RefSort} {
+		for _, t := range indexCandidates(collect([]*Term{o.Goal}), srt) {
+			goalTerms[t.id] = true
+		}
+	}
+	specRounds := 0
+	inQuery := map[*LazyForall]bool{}
+	lazySink = &lazies
+	defer func() { lazySink = nil }()
+	for round := 0; round < 8; round++ {
+		var added []*Term
+		order := collect(asserts)
+		existing := make(map[int]bool, len(order))
+		for _, t := range order {
+			existing[t.id] = true
+		}
+		candBySort := map[*Sort][]*Term{}
+		if round < 7 {
 			for li := 0; li < len(lazies); li++ {
 				lf := lazies[li]
-				cands := indexCandidates(order, lf.Sort)
-				if len(cands) > maxInstCandidates {
-					// prefer older (smaller) terms
-					sort.SliceStable(cands, func(i, j int) bool { return cands[i].id < cands[j].id })
-					cands = cands[:maxInstCandidates]
+				cands, have := candBySort[lf.Sort]
+				if !have {
+					cands = indexCandidates(order, lf.Sort)
+					if len(cands) > maxInstCandidates {
+						// prefer older (smaller) terms
+						sort.SliceStable(cands, func(i, j int) bool { return cands[i].id < cands[j].id })
+						cands = cands[:maxInstCandidates]
+					}
+					candBySort[lf.Sort] = cands
 				}
+				cands = append([]*Term{}, cands...)
 				// the goal's own constants and explicit hints are always tried
 				for _, s := range o.Skolems {
 					if s.Sort == lf.Sort {
@@ -135,54 +160,112 @@ func (P *Prog) buildQuery(o *Obligation) (asserts []*Term, stats string) {
 					}
 				}
 				cands = append(cands, lf.Uses...)
+				always := map[int]bool{}
+				for id := range goalTerms {
+					always[id] = true
+				}
+				for _, s := range o.Skolems {
+					always[s.id] = true
+				}
+				for _, s := range lf.Uses {
+					always[s.id] = true
+				}
 				for _, c := range cands {
 					k := fmt.Sprintf("%d/%d", li, c.id)
 					if done[k] || total >= maxInstTotal {
 						continue
 					}
+					bc := globalBodyCache[lf]
+					if bc == nil {
+						bc = map[int]bodyEntry{}
+						globalBodyCache[lf] = bc
+					}
+					ent, have := bc[c.id]
+					if !have {
+						n0 := len(lazies)
+						ent.body = safeBody(lf, c)
+						ent.nested = append([]*LazyForall{}, lazies[n0:]...)
+						bc[c.id] = ent
+					} else {
+						// quantified facts nested in this instance belong to this query too
+						for _, nl := range ent.nested {
+							if !inQuery[nl] {
+								lazies = append(lazies, nl)
+							}
+						}
+					}
+					for _, nl := range ent.nested {
+						inQuery[nl] = true
+					}
+					body := ent.body
+					if body == True {
+						done[k] = true
+						continue
+					}
+					// trigger: an instance at a term merely found in the query is kept only if it
+					// talks about a read (array select, string byte, function application) that
+					// already occurs in the query and involves that term; otherwise it is retried
+					// in a later round. The goal's own constants and hints are always used.
+					if !always[c.id] && !triggered(body, kfree(lf), existing) {
+						continue
+					}
 					done[k] = true
-					inst := Implies(lf.Guard, safeBody(lf, c))
+					inst := Implies(lf.Guard, body)
 					if inst != True {
 						added = append(added, inst)
 						total++
 					}
 				}
 			}
-			if len(added) == 0 {
-				break
-			}
-			asserts = append(asserts, added...)
 		}
-		stats = fmt.Sprintf("%d instantiations of %d assumed quantifiers", total, len(o.Lazy))
-	}
-	// defining equations of specification functions, for every application in the query
-	if len(specAxioms)+len(revealAxioms) > 0 {
-		doneApp := map[int]bool{}
-		for round := 0; round < 3; round++ {
-			var added []*Term
-			for _, t := range collect(asserts) {
-				if t.Op != "app" || doneApp[t.id] {
-					continue
-				}
-				doneApp[t.id] = true
-				if ax, ok := specAxioms[t.Name]; ok {
-					added = append(added, ax(t)...)
-				}
-				// opaque functions: computational definition only where revealed
-				if rax, isOpaque := revealAxioms[t.Name]; isOpaque {
-					for _, r := range o.Reveal {
-						if "spec|"+r == t.Name {
-							added = append(added, rax(t)...)
-						}
+		var apps []*Term
+		for _, t := range collect(append(append([]*Term{}, asserts...), added...)) {
+			if t.Op != "app" {
+				continue
+			}
+			if round == 0 && (t.Name == "spec|bcount" || t.Name == "spec|vtotal") {
+				apps = append(apps, t)
+			}
+			if doneApp[t.id] || specRounds >= 3 {
+				continue
+			}
+			doneApp[t.id] = true
+			if ax, ok := specAxioms[t.Name]; ok {
+				added = append(added, ax(t)...)
+			}
+			// opaque functions: computational definition only where revealed
+			if rax, isOpaque := revealAxioms[t.Name]; isOpaque {
+				for _, r := range o.Reveal {
+					if "spec|"+r == t.Name {
+						added = append(added, rax(t)...)
 					}
 				}
 			}
-			if len(added) == 0 {
-				break
-			}
-			asserts = append(asserts, added...)
 		}
+		// extensionality between the applications present before any unfolding
+		if len(apps) <= 12 {
+			for x := 0; x < len(apps); x++ {
+				for y := x + 1; y < len(apps); y++ {
+					a, b := apps[x], apps[y]
+					if a.Name != b.Name || a.Args[0] == b.Args[0] {
+						continue
+					}
+					k := fmt.Sprintf("%d/%d", a.id, b.id)
+					if donePair[k] {
+						continue
+					}
+					donePair[k] = true
+					added = append(added, rowExtensionality(a, b))
+				}
+			}
+		}
+		if len(added) == 0 {
+			break
+		}
+		specRounds++
+		asserts = append(asserts, added...)
 	}
+	stats = fmt.Sprintf("%d instantiations of %d assumed quantifiers", total, len(lazies))
 	ocDone := map[string]bool{}
 	for round := 0; round < 3; round++ {
 		added := oc16Congruence(asserts, ocDone)
@@ -202,6 +285,64 @@ func (P *Prog) buildQuery(o *Obligation) (asserts []*Term, stats string) {
 	// reserved references for immutable global objects
 	asserts = append(asserts, ULt(BVi(1024, 32), Var("alloc@0", RefSort)), ULe(Var("alloc@0", RefSort), BVu(0x00fffff0, 32)))
 	return asserts, stats
+}
+
+// kfree returns the set of subterms of the body of lf that do not depend on the bound
+// variable (computed once, by instantiating at a fresh variable).
+var kfreeCache = map[*LazyForall]map[int]bool{}
+
+func kfree(lf *LazyForall) map[int]bool {
+	if m, ok := kfreeCache[lf]; ok {
+		return m
+	}
+	m := map[int]bool{}
+	b := safeBody(lf, Fresh("kfree", lf.Sort))
+	for _, t := range collect([]*Term{b}) {
+		m[t.id] = true
+	}
+	kfreeCache[lf] = m
+	return m
+}
+
+// triggered reports whether the instance body contains a read term (select / uninterpreted
+// application) that already occurs in the query (existing) and depends on the instantiation
+// term, i.e. is not one of the subterms the body has for every value of the bound variable.
+func triggered(body *Term, indep map[int]bool, existing map[int]bool) bool {
+	seen := map[int]bool{}
+	stack := []*Term{body}
+	for len(stack) > 0 {
+		t := stack[len(stack)-1]
+		stack = stack[:len(stack)-1]
+		if seen[t.id] || indep[t.id] {
+			// subterms that do not depend on the bound variable cannot contain dependent reads
+			continue
+		}
+		seen[t.id] = true
+		if (t.Op == "select" || t.Op == "app") && existing[t.id] {
+			return true
+		}
+		stack = append(stack, t.Args...)
+	}
+	return false
+}
+
+// globalBodyCache: instances of quantified facts are reused across the obligations of a function.
+type bodyEntry struct {
+	body   *Term
+	nested []*LazyForall
+}
+
+var globalBodyCache = map[*LazyForall]map[int]bodyEntry{}
+
+// rowExtensionality: two sums over ranges of equal length differ only if the rows differ at
+// some position of the range; the position is named by a Skolem function of the two
+// applications, so the copy/append facts get instantiated there.
+func rowExtensionality(a, b *Term) *Term {
+	ra, loa, hia := a.Args[0], a.Args[1], a.Args[2]
+	rb, lob, hib := b.Args[0], b.Args[1], b.Args[2]
+	d := App("spec|diffidx|"+a.Name, IntSort, ra, loa, hia, rb, lob)
+	same := And(Eq(Sub(hia, loa), Sub(hib, lob)), SLe(loa, hia), Neq(a, b))
+	return Implies(same, And(SLe(BVi(0, 64), d), SLt(d, Sub(hia, loa)), Neq(Select(ra, Add(loa, d)), Select(rb, Add(lob, d)))))
 }
 
 // oc16Congruence instantiates compatibility of oc16 (x mod 65535) with addition:
@@ -392,18 +533,8 @@ func (P *Prog) discharge(obls []*Obligation, opt SolveOpts) {
 		script string
 	}
 	// query construction touches the global term table: do it sequentially
-	var jobs []job
-	for _, o := range obls {
-		asserts, stats := P.buildQuery(o)
-		if os.Getenv("VERIF_DEBUG") != "" {
-			fmt.Fprintf(os.Stderr, "query %s: %s\n", o.Name, stats)
-			for _, l := range o.Lazy {
-				fmt.Fprintf(os.Stderr, "   lazy[%s]: %s\n", l.Sort, l.Desc)
-			}
-		}
-		jobs = append(jobs, job{o, Script(asserts, "", nil)})
-	}
-	for i, j := range jobs {
+	var launch func(i int, j job)
+	launch = func(i int, j job) {
 		wg.Add(1)
 		sem <- struct{}{}
 		go func(i int, j job) {
@@ -456,5 +587,32 @@ func (P *Prog) discharge(obls []*Obligation, opt SolveOpts) {
 			}
 		}(i, j)
 	}
+	var jobs []job
+	tBuild := time.Now()
+	defer func() {
+		if os.Getenv("VERIF_DEBUG") != "" {
+			fmt.Fprintf(os.Stderr, "timing: total discharge %.1fs\n", time.Since(tBuild).Seconds())
+		}
+	}()
+	for _, o := range obls {
+		t0 := time.Now()
+		asserts, stats := P.buildQuery(o)
+		if d := time.Since(t0); d > 500*time.Millisecond && os.Getenv("VERIF_DEBUG") != "" {
+			fmt.Fprintf(os.Stderr, "timing: buildQuery %s took %.1fs\n", o.Name, d.Seconds())
+		}
+		if os.Getenv("VERIF_DEBUG") != "" {
+			fmt.Fprintf(os.Stderr, "query %s: %s\n", o.Name, stats)
+			for _, l := range o.Lazy {
+				fmt.Fprintf(os.Stderr, "   lazy[%s]: %s\n", l.Sort, l.Desc)
+			}
+		}
+		jb := job{o, Script(asserts, "", nil)}
+		jobs = append(jobs, jb)
+		launch(len(jobs)-1, jb)
+	}
+	if os.Getenv("VERIF_DEBUG") != "" {
+		fmt.Fprintf(os.Stderr, "timing: all queries built in %.1fs\n", time.Since(tBuild).Seconds())
+	}
+	_ = jobs
 	wg.Wait()
 }
